@@ -564,49 +564,60 @@ class FunctionDefinition(TypedExpression):
                     any(argument_needs_multiline(arg) for arg in self.argument_set)
                     or len(self.argument_set) > 2
                 )
-            args = []
-            for i, arg in enumerate(self.argument_set):
-                is_last_argument: bool = i == len(self.argument_set) - 1
-                next_arg = (
-                    self.argument_set[i + 1] if i + 1 < len(self.argument_set) else None
-                )
-                next_has_leading_comma = (
-                    next_arg is not None
-                    and hasattr(next_arg, "before")
-                    and comma in next_arg.before
-                )
-                arg_expr = arg
-                trailing_after: list[Any] = []
-                if args_multiline and is_last_argument and arg.after:
-                    inline_after: list[Any] = []
-                    for item in arg.after:
-                        if isinstance(item, Comment) and item.inline:
-                            inline_after.append(item)
-                        else:
-                            trailing_after.append(item)
-                    if trailing_after:
-                        arg_expr = arg.model_copy(update={"after": inline_after})
-                trailing_comma = args_multiline and not (
-                    is_last_argument and isinstance(arg, Ellipses)
-                )
-                if next_has_leading_comma:
-                    trailing_comma = False
-                rendered = arg_expr.rebuild(
-                    indent=inner_indent,
-                    inline=not args_multiline,
-                    trailing_comma=trailing_comma,
-                )
-                if trailing_after:
-                    trailing_indent = inner_indent
-                    if (
-                        is_last_argument
-                        and self.argument_set_trailing_comment_indent is not None
-                    ):
-                        trailing_indent = self.argument_set_trailing_comment_indent
-                    rendered += apply_trailing_trivia(
-                        "", trailing_after, indent=trailing_indent
+
+            def render_arguments(args_multiline: bool) -> list[str]:
+                """Render every formal for the given layout."""
+                args: list[str] = []
+                for i, arg in enumerate(self.argument_set):
+                    is_last_argument: bool = i == len(self.argument_set) - 1
+                    next_arg = (
+                        self.argument_set[i + 1] if i + 1 < len(self.argument_set) else None
                     )
-                args.append(rendered)
+                    next_has_leading_comma = (
+                        next_arg is not None
+                        and hasattr(next_arg, "before")
+                        and comma in next_arg.before
+                    )
+                    arg_expr = arg
+                    trailing_after: list[Any] = []
+                    if args_multiline and is_last_argument and arg.after:
+                        inline_after: list[Any] = []
+                        for item in arg.after:
+                            if isinstance(item, Comment) and item.inline:
+                                inline_after.append(item)
+                            else:
+                                trailing_after.append(item)
+                        if trailing_after:
+                            arg_expr = arg.model_copy(update={"after": inline_after})
+                    trailing_comma = args_multiline and not (
+                        is_last_argument and isinstance(arg, Ellipses)
+                    )
+                    if next_has_leading_comma:
+                        trailing_comma = False
+                    rendered = arg_expr.rebuild(
+                        indent=inner_indent,
+                        inline=not args_multiline,
+                        trailing_comma=trailing_comma,
+                    )
+                    if trailing_after:
+                        trailing_indent = inner_indent
+                        if (
+                            is_last_argument
+                            and self.argument_set_trailing_comment_indent is not None
+                        ):
+                            trailing_indent = self.argument_set_trailing_comment_indent
+                        rendered += apply_trailing_trivia(
+                            "", trailing_after, indent=trailing_indent
+                        )
+                    args.append(rendered)
+                return args
+
+            args = render_arguments(bool(args_multiline))
+            if not args_multiline and any("\n" in rendered for rendered in args):
+                # A formal whose default renders on several lines cannot stay in
+                # an inline pattern: expand it now instead of on the next pass.
+                args_multiline = True
+                args = render_arguments(True)
 
             if args_multiline:
                 trailing_gap = "\n" * self.argument_set_trailing_empty_lines
